@@ -1,4 +1,6 @@
 import Minimq.Proofs.WireLog
+import Minimq.Proofs.WireAck
+import Minimq.Proofs.WireRelPub
 import Minimq.Proofs.WireLift
 /-
 C01 / C14, whole machine: the bytes accepted by the current transport are the CONNECT, then whole framed
@@ -119,18 +121,20 @@ theorem Closed.and_w {P R : Session → Prop} (hp : Closed P) (hr : Closed R) : 
 
 /-- Arena layout, whole framed packets in the arena, distinct in-flight identifiers: invariants of every
 execution (`closed_FramedP`, `closed_IdInv`) that the wire argument relies on. -/
-def SP (s : Session) : Prop := FramedP s ∧ s.data.IdInv
+def SP (s : Session) : Prop := (FramedP s ∧ s.data.IdInv) ∧ RelP s
 
-theorem closed_SP : Closed SP := Closed.and_w closed_FramedP closed_IdInv
+theorem closed_SP : Closed SP := Closed.and_w (Closed.and_w closed_FramedP closed_IdInv) closed_RelP
 
 theorem SP_new (cfg : Cfg) : SP (Session.new cfg) :=
-  ⟨⟨⟨ArenaInv_new cfg.tx, ⟨by simp [Session.new, Outbound.new], by simp [Session.new, Outbound.new]⟩⟩,
+  ⟨⟨⟨⟨ArenaInv_new cfg.tx, ⟨by simp [Session.new, Outbound.new], by simp [Session.new, Outbound.new]⟩⟩,
      by intro bs hbs; simp [Session.new, Outbound.new, Outbound.contents, contents] at hbs⟩,
-   ⟨IdInv_new cfg.tx, by simp [Session.new]⟩⟩
+   ⟨IdInv_new cfg.tx, by simp [Session.new]⟩⟩, RelP_new cfg⟩
 
-theorem SP.arena {s : Session} (h : SP s) : s.data.outbound.ArenaInv := h.1.1.1
-theorem SP.framed {s : Session} (h : SP s) : s.data.outbound.FramedInv := h.1.2
-theorem SP.ids {s : Session} (h : SP s) : s.data.outbound.IdInv := h.2.out
+theorem SP.arena {s : Session} (h : SP s) : s.data.outbound.ArenaInv := h.1.1.1.1
+theorem SP.ser {s : Session} (h : SP s) : s.data.outbound.SerInv := h.1.1.1.2
+theorem SP.framed {s : Session} (h : SP s) : s.data.outbound.FramedInv := h.1.1.2
+theorem SP.ids {s : Session} (h : SP s) : s.data.outbound.IdInv := h.1.2.out
+theorem SP.rel {s : Session} (h : SP s) : s.data.outbound.RelInv := h.2
 
 /-! ### What the step encoders produce -/
 
@@ -194,7 +198,7 @@ theorem prepareStep_write (w : World) (step : Outbound.Step) (hs : w.sess.data.o
           exact ⟨rfl, rfl, henc, rfl, h1, h2, by simpa using hbig⟩
     | flush => simp [prepareStep] at h
     | sent => simp [prepareStep] at h
-  | release pre id rc st post hr hpre hpost hctl hret =>
+  | release pre id rc st rs ps post hr hpre hpost hctl hret =>
     cases st with
     | write wr =>
       simp only [prepareStep] at h
@@ -429,13 +433,22 @@ structure Lv (v : View) (part : Bytes) : Prop where
   sp : SP v.sess
   wire : WireIs v.lim v.wire (v.log.map (·.bytes)) part
   log : v.o.Log v.ord v.log
+  /-- a connection is live only after an accepted CONNACK (ghost flag) -/
+  acc : v.sess.data.everAccepted = true
+  /-- written acknowledgements, then waiting ones, are the ones recorded in the inbound log -/
+  acks : AckEq v.sess v.log
+  /-- a PUBREL created on this connection has a transmission of its PUBLISH in this transport's log -/
+  relpub : RelPub v.sess v.log
 
 /-- Between steps of `flush_outbound` and whenever no operation is suspended on a live connection:
 the queues account for the incomplete packet on the wire, and no complete inbound packet is waiting. -/
 def FlushPre (v : View) : Prop := ∃ part, Lv v part ∧ v.o.OState v.ok part ∧ v.avail = false
 
-/-- In `drive_packet`: a complete inbound packet may be waiting, but then nothing is in progress. -/
-def DrivePre (v : View) : Prop := ∃ part, Lv v part ∧ v.o.OState v.ok part ∧ (v.avail = true → v.o.Quiet)
+/-- In `drive_packet`: a complete inbound packet may be waiting, but then nothing is in progress and
+nothing is unsent (`drive_packet` reads only when `next_step` has nothing left to do, and the reader
+never reads past the packet it is assembling). -/
+def DrivePre (v : View) : Prop :=
+  ∃ part, Lv v part ∧ v.o.OState v.ok part ∧ (v.avail = true → v.o.Quiet ∧ v.o.nextStep = none)
 
 /-- At the `write` await of `perform_outbound_step`. -/
 def WritePre (v : View) (step : Outbound.Step) (bytes : Bytes) (written : Nat) : Prop :=
@@ -447,6 +460,9 @@ def FlushingPre (v : View) (step : Outbound.Step) : Prop :=
   Lv v [] ∧ v.o.Slot step ∧ step.state = .flush ∧ v.avail = false
 
 def QuietPre (v : View) : Prop := Lv v [] ∧ v.o.Quiet
+
+/-- While `drive_packet` waits for inbound bytes: nothing is left to send. -/
+def IdlePre (v : View) : Prop := QuietPre v ∧ v.o.nextStep = none
 
 /-- The handshake: no connection handle, a fresh transport whose log is empty, every queue entry
 waiting for its first byte. -/
@@ -479,12 +495,12 @@ def PcOK (v : View) : Pc → Prop
   | .q0Flush => LocalFlushPre v 1
   | .discWrite bytes => LocalPre v 2 bytes
   | .discFlush => LocalFlushPre v 2
-  | .waitRead _ _ _ => QuietPre v ∧ v.avail = false
+  | .waitRead _ _ _ => IdlePre v ∧ v.avail = false
 
 /-- What is kept about a connection that is not live (dead, dropped, or not yet established): its
 wire is whole packets and possibly the beginning of one more, and its log has each retained packet at
 most once, in serial order. -/
-def DeadOK (v : View) : Prop := Pfx v.wire ∧ (sers v.log).Pairwise (· < ·)
+def DeadOK (v : View) : Prop := Pfx v.wire ∧ LogSorted v.log
 
 /-- The invariant between directives. -/
 def PhaseV (v : View) (fut : Option Pc) : Prop :=
@@ -535,14 +551,18 @@ structure SessOK (v : View) (s : Session) : Prop where
   sp : SP s
   mps : s.rt.maximumPacketSize = v.sess.rt.maximumPacketSize
   log : s.data.outbound.Log v.ord v.log
+  acc : s.data.everAccepted = true
+  acks : AckEq s v.log
+  relpub : RelPub s v.log
 
 theorem Lv.sess {v : View} {part : Bytes} (h : Lv v part) {s : Session} (hs : SessOK v s) : Lv { v with sess := s } part :=
-  ⟨h.net, h.live, hs.sp, by rw [View.lim_sess v hs.mps]; exact h.wire, hs.log⟩
+  ⟨h.net, h.live, hs.sp, by rw [View.lim_sess v hs.mps]; exact h.wire, hs.log, hs.acc, hs.acks, hs.relpub⟩
 
 /-- The outbound queues did not change at all. -/
 theorem SessOK.same {v : View} {s : Session} {part : Bytes} (h : Lv v part) (hs : SP s)
-    (hm : s.rt.maximumPacketSize = v.sess.rt.maximumPacketSize) (ho : s.data.outbound = v.sess.data.outbound) : SessOK v s :=
-  ⟨hs, hm, by rw [ho]; exact h.log⟩
+    (hm : s.rt.maximumPacketSize = v.sess.rt.maximumPacketSize) (ho : s.data.outbound = v.sess.data.outbound)
+    (hp : Prim v.sess s) (hi : s.inlog = v.sess.inlog) (hr : s.rmark = v.sess.rmark) : SessOK v s :=
+  ⟨hs, hm, by rw [ho]; exact h.log, hp.everAccepted_changes.1 h.acc, h.acks.same (by rw [ho]) hi, h.relpub.same_out ho hr⟩
 
 theorem FlushPre.pfx {v : View} (h : FlushPre v) : DeadOK v := by
   obtain ⟨part, hl, ho, _⟩ := h; exact hl.pfx ho
@@ -576,7 +596,7 @@ theorem FlushingPre.flushPre {v : View} {step : Outbound.Step} (h : FlushingPre 
 
 theorem QuietPre.pfx {v : View} (h : QuietPre v) : DeadOK v := ⟨h.1.wire.pfx_nil, h.1.log.sorted⟩
 theorem QuietPre.flushPre {v : View} (h : QuietPre v) (ha : v.avail = false) : FlushPre v := ⟨[], h.1, .quiet h.2, ha⟩
-theorem QuietPre.drive {v : View} (h : QuietPre v) : DrivePre v := ⟨[], h.1, .quiet h.2, fun _ => h.2⟩
+theorem IdlePre.drive {v : View} (h : IdlePre v) : DrivePre v := ⟨[], h.1.1, .quiet h.1.2, fun _ => ⟨h.1.2, h.2⟩⟩
 
 theorem queuePing_rt {s s' : Session} {now : Nat} (hq : s.queuePing now = .ok s') : s'.rt = s.rt := by
   rcases Session.queuePing_ok hq with rfl | ⟨o, _, rfl⟩ <;> rfl
@@ -585,7 +605,7 @@ theorem FlushPre.queuePing {v : View} {s' : Session} {now : Nat} (h : FlushPre v
     FlushPre { v with sess := s' } := by
   obtain ⟨part, hl, ho, ha⟩ := h
   have hm : s'.rt.maximumPacketSize = v.sess.rt.maximumPacketSize := by rw [queuePing_rt hq]
-  refine ⟨part, hl.sess ⟨closed_SP.queuePing _ _ _ hl.sp hq, hm, Log_queuePing hq hl.log⟩, ?_, ?_⟩
+  refine ⟨part, hl.sess ⟨closed_SP.queuePing _ _ _ hl.sp hq, hm, Log_queuePing hq hl.log, (Prim.queuePing _ _ _ hq).everAccepted_changes.1 hl.acc, hl.acks.queuePing hq, hl.relpub.queuePing hq⟩, ?_, ?_⟩
   · rw [View.ok_sess v hm]; exact OState_queuePing hq ho
   · show s'.reader.packetAvailable = false
     rw [queuePing_reader hq]; exact ha
@@ -595,10 +615,10 @@ theorem FlushPre.none {v : View} (h : FlushPre v) (hn : v.o.nextStep = none) : Q
   obtain ⟨hq, rfl⟩ := ho.of_nextStep_none hn
   exact ⟨⟨hl, hq⟩, ha⟩
 
-theorem DrivePre.none {v : View} (h : DrivePre v) (hn : v.o.nextStep = none) : QuietPre v := by
+theorem DrivePre.none {v : View} (h : DrivePre v) (hn : v.o.nextStep = none) : IdlePre v := by
   obtain ⟨part, hl, ho, _⟩ := h
   obtain ⟨hq, rfl⟩ := ho.of_nextStep_none hn
-  exact ⟨hl, hq⟩
+  exact ⟨⟨hl, hq⟩, hn⟩
 
 theorem FlushPre.flushing {v : View} {step : Outbound.Step} (h : FlushPre v) (hn : v.o.nextStep = some step)
     (hst : step.state = .flush) : FlushingPre v step := by
@@ -639,10 +659,14 @@ theorem WritePre.advance {v : View} {step : Outbound.Step} {bytes : Bytes} {writ
   have hwire : WireIs v.lim (v.wire ++ (bytes.drop written).take count) (v.log.map (·.bytes)) (bytes.take (written + count)) := by
     rw [List.take_add]; exact hl.wire.append _
   have hslot := hs.setWritten (written + count) bytes.length
+  have hacc' : ∀ a c, (v.sess.setWritten step.flushed a c).data.everAccepted = true :=
+    fun a c => (Prim.setWritten _ _ a c).everAccepted_changes.1 hl.acc
+  have hack := AckEq.setWritten v.ord hl.acks hs hst (written + count) bytes.length
+  have hrp := RelPub.setWritten v.ord hl.relpub hs (written + count) bytes.length
   have hbytes : (v.o.setWritten step.flushed (written + count) bytes.length).StepBytes
       (step.withState (SendState.afterWrite (written + count) bytes.length)) bytes :=
     StepBytes_withState (StepBytes_congr hb (setWritten_buf _ _ _ _)) _
-  have hlog := hl.log.setWritten hl.sp.1.1.2 hs hst (written + count) bytes.length
+  have hlog := hl.log.setWritten hl.sp.ser hl.sp.rel hs hst (written + count) bytes.length
   have hdone := done_of_slot v.ord hs hb
   simp only [List.length_drop] at hc
   have hle : written + count ≤ bytes.length := by omega
@@ -654,12 +678,12 @@ theorem WritePre.advance {v : View} {step : Outbound.Step} {bytes : Bytes} {writ
       rw [Session.setWritten_outbound]; exact hlog.1 hlt2
     cases wc with
     | zero =>
-      refine ⟨[], ⟨hl.net, hl.live, hsp, (by simpa using hwire : WireIs v.lim _ _ []), hlog'⟩, .quiet ?_, ha⟩
+      refine ⟨[], ⟨hl.net, hl.live, hsp, (by simpa using hwire : WireIs v.lim _ _ []), hlog', hacc' _ _, hack.1 hlt2, hrp.1⟩, .quiet ?_, ha⟩
       show (v.sess.setWritten step.flushed 0 bytes.length).data.outbound.Quiet
       rw [Session.setWritten_outbound]
       exact hslot.quiet_of_fresh (by simp)
     | succ n =>
-      refine ⟨_, ⟨hl.net, hl.live, hsp, hwire, hlog'⟩, ?_, ha⟩
+      refine ⟨_, ⟨hl.net, hl.live, hsp, hwire, hlog', hacc' _ _, hack.1 hlt2, hrp.1⟩, ?_, ha⟩
       show (v.sess.setWritten step.flushed (n + 1) bytes.length).data.outbound.OState v.ok _
       rw [Session.setWritten_outbound]
       exact .writing _ n bytes hslot (by simp) hbytes hlt2 hfr hok
@@ -677,7 +701,7 @@ theorem WritePre.advance {v : View} {step : Outbound.Step} {bytes : Bytes} {writ
       rw [List.map_append, List.map_cons, List.map_nil]
       show WireIs v.lim _ (v.log.map (·.bytes) ++ [(v.o.done v.ord step.flushed).bytes]) []
       rw [hdone]; exact this
-    refine ⟨⟨hl.net, hl.live, hsp, hwire', hlog'⟩, ?_, by simp, ha⟩
+    refine ⟨⟨hl.net, hl.live, hsp, hwire', hlog', hacc' _ _, hack.2 (Nat.le_refl _), hrp.2⟩, ?_, by simp, ha⟩
     show (v.sess.setWritten step.flushed bytes.length bytes.length).data.outbound.Slot _
     rw [Session.setWritten_outbound]
     exact hslot
@@ -705,6 +729,18 @@ theorem retain_mps {s s3 : Session} {id off len : Nat} {isPub : Bool} (hr : s.re
   · simp only [Option.some.injEq] at hr; subst hr
     split <;> rfl
 
+theorem retain_acc {s s3 : Session} {id off len : Nat} {isPub : Bool} (hr : s.retain id off len isPub = some s3) :
+    s3.data.everAccepted = s.data.everAccepted := by
+  unfold Session.retain at hr
+  split at hr
+  · simp at hr
+  · simp only [Option.some.injEq] at hr; subst hr
+    split <;> rfl
+
+theorem alloc_encode_acc {ε : Type} (s : Session) (enc : Nat → (Nat → Nat → Bytes) → Except ε (Nat × Bytes)) :
+    (s.alloc.1.encode enc).1.data.everAccepted = s.data.everAccepted := by
+  rw [Session.encode_fst, Session.alloc_fst]; exact (nextPacketId_ghost s.data).1
+
 theorem completeFlush_mps (s : Session) (pkt : Flushed) (now : Nat) :
     (s.completeFlush pkt now).rt.maximumPacketSize = s.rt.maximumPacketSize := by
   unfold Session.completeFlush
@@ -717,7 +753,7 @@ theorem completeFlush_mps (s : Session) (pkt : Flushed) (now : Nat) :
 theorem FlushingPre.done {v : View} {step : Outbound.Step} (h : FlushingPre v step) (now : Nat) :
     FlushPre { v with sess := v.sess.completeFlush step.flushed now } := by
   obtain ⟨hl, hs, hst, ha⟩ := h
-  refine ⟨[], hl.sess ⟨closed_SP.completeFlush _ _ _ hl.sp, completeFlush_mps _ _ _, ?_⟩, .quiet ?_, ha⟩
+  refine ⟨[], hl.sess ⟨closed_SP.completeFlush _ _ _ hl.sp, completeFlush_mps _ _ _, ?_, (Prim.completeFlush _ _ _).everAccepted_changes.1 hl.acc, hl.acks.completeFlush hs hst now, hl.relpub.completeFlush _ now⟩, .quiet ?_, ha⟩
   · rw [Session.completeFlush_outbound]; exact hl.log.completeFlush hs hst
   · show (v.sess.completeFlush step.flushed now).data.outbound.Quiet
     rw [Session.completeFlush_outbound]
@@ -737,12 +773,12 @@ theorem LocalFlushPre.dead {v : View} (h : LocalFlushPre v 0) : v.live = false :
 
 theorem LocalPre.pfx {v : View} {which : Nat} {bytes : Bytes} (h : LocalPre v which bytes) : DeadOK v := by
   rcases h.2.2.2 with ⟨_, hc, hfr, _⟩ | ⟨_, _, pre, hl, hfr, _⟩
-  · exact ⟨Pfx.of_framed hfr, by rw [hc.log]; simp [sers]⟩
+  · exact ⟨Pfx.of_framed hfr, by rw [hc.log]; exact LogSorted.nil⟩
   · exact ⟨hl.wire.pfx_framed hfr, hl.log.sorted⟩
 
 theorem LocalFlushPre.pfx {v : View} {which : Nat} (h : LocalFlushPre v which) : DeadOK v := by
   rcases h.2.2.2 with ⟨_, hc, hfr, _⟩ | ⟨_, _, hl⟩
-  · exact ⟨Pfx.of_framed (rest := []) (by simpa using hfr), by rw [hc.log]; simp [sers]⟩
+  · exact ⟨Pfx.of_framed (rest := []) (by simpa using hfr), by rw [hc.log]; exact LogSorted.nil⟩
   · exact ⟨hl.wire.pfx_nil, hl.log.sorted⟩
 
 theorem LocalPre.toFlush {v : View} {which : Nat} (h : LocalPre v which []) : LocalFlushPre v which := by
@@ -752,7 +788,7 @@ theorem LocalPre.toFlush {v : View} {which : Nat} (h : LocalPre v which []) : Lo
   · rw [List.append_nil] at hfr hcc
     exact Or.inl ⟨h0, hc, hfr, hcc⟩
   · rw [List.append_nil] at hfr hfit
-    exact Or.inr ⟨h0, ha, ⟨hl.net, hl.live, hl.sp, hl.wire.close hfr hfit, hl.log⟩⟩
+    exact Or.inr ⟨h0, ha, ⟨hl.net, hl.live, hl.sp, hl.wire.close hfr hfit, hl.log, hl.acc, hl.acks, hl.relpub⟩⟩
 
 theorem LocalPre.advance {v : View} {which : Nat} {bytes : Bytes} (h : LocalPre v which bytes) (n : Nat) :
     LocalPre { v with wire := v.wire ++ bytes.take n } which (bytes.drop n) := by
@@ -766,7 +802,7 @@ theorem LocalPre.advance {v : View} {which : Nat} {bytes : Bytes} (h : LocalPre 
     · show IsConnect ((v.wire ++ bytes.take n) ++ bytes.drop n)
       rw [List.append_assoc, List.take_append_drop]; exact hcc
   · right
-    refine ⟨h0, ha, pre ++ bytes.take n, ⟨hl.net, hl.live, hl.sp, hl.wire.append _, hl.log⟩, ?_, ?_⟩
+    refine ⟨h0, ha, pre ++ bytes.take n, ⟨hl.net, hl.live, hl.sp, hl.wire.append _, hl.log, hl.acc, hl.acks, hl.relpub⟩, ?_, ?_⟩
     · rw [List.append_assoc, List.take_append_drop]; exact hfr
     · rw [List.append_assoc, List.take_append_drop]; exact hfit
 
@@ -806,7 +842,7 @@ theorem LocalFlushPre.done {v : View} {which : Nat} (h : LocalFlushPre v which) 
   obtain ⟨h1, h2, h3, h4⟩ := h
   rcases h4 with ⟨h0, _⟩ | ⟨_, ha, hl⟩
   · exact (hw h0).elim
-  · exact ⟨[], hl.sess (SessOK.same hl (closed_SP.noteActivity _ _ h2) rfl rfl), .quiet h3, ha⟩
+  · exact ⟨[], hl.sess (SessOK.same hl (closed_SP.noteActivity _ _ h2) rfl rfl (Prim.noteActivity _ _) rfl rfl), .quiet h3, ha⟩
 
 /-! ### Fuel: a potential that every call of a machine function decreases
 
@@ -1115,7 +1151,7 @@ def MachineW (fuel : Nat) : Prop :=
   (∀ w o adv, φDL w o adv ≤ fuel → DrivePre w.view → Post (driveLoop fuel w o adv)) ∧
   (∀ w o adv, φDAS w o adv ≤ fuel → DrivePre w.view → Post (driveAfterService fuel w o adv)) ∧
   (∀ w o, φDE w ≤ fuel → DrivePre w.view → Post (driveEnter fuel w o)) ∧
-  (∀ w o d y, φDWR w y ≤ fuel → QuietPre w.view → Post (doWaitRead fuel w o d y))
+  (∀ w o d y, φDWR w y ≤ fuel → IdlePre w.view → Post (doWaitRead fuel w o d y))
 
 theorem φSR_le (w : World) (ctx : StepCtx) : φSR w ctx ≤ 1000 * mS w + 735 := by
   have := mK_le w; have := mRW_le w
@@ -1381,13 +1417,19 @@ theorem activate_post (w : World) (sp : Bool) (block : Bytes) (h : LocalFlushPre
       apply Post.live_finish
       have hs : s = (w.sess.activate sp block w.now).1 := by rw [heq]
       have hok : (w.sess.activate sp block w.now).2 = .ok () := by rw [heq]
-      refine ⟨[], ⟨h1, rfl, ?_, ?_, ?_⟩, .quiet ?_, ?_⟩
+      refine ⟨[], ⟨h1, rfl, ?_, ?_, ?_, ?_, ?_, ?_⟩, .quiet ?_, ?_⟩
       · show SP s
         rw [hs]; exact closed_SP.activate _ _ _ _ h2
       · show WireIs _ w.view.wire (w.view.log.map (·.bytes)) []
         rw [hlog0]; exact WireIs.first _ hfr hcc
       · show s.data.outbound.Log w.view.ord w.view.log
-        rw [hlog0, hs]; exact Log_of_allFresh _ _ (allFresh_activate _ _ _ _ hc.fresh).retained
+        rw [hlog0, hs]; exact Log_of_allFresh _ _ (allFresh_activate _ _ _ _ hc.fresh).retained (allFresh_activate _ _ _ _ hc.fresh).release
+      · show s.data.everAccepted = true
+        rw [hs]; exact ((activate_halfReset _ _ _ _).2.2 ((activate_ok_iff _ _ _ _).1 hok)).2
+      · show AckEq s w.view.log
+        rw [hlog0, hs]; exact AckEq.activate _ _ _ _ hok (allFresh_activate _ _ _ _ hc.fresh).control
+      · show RelPub s w.view.log
+        rw [hlog0, hs]; exact RelPub.activate _ _ _ _ hok (closed_SP.activate _ _ _ _ h2).rel
       · show s.data.outbound.Quiet
         rw [hs]; exact Quiet_activate _ _ _ _ h3
       · show s.reader.packetAvailable = false
@@ -1489,7 +1531,7 @@ theorem processReceivedPacket_spec (w : World) (h : DrivePre w.view) (hav : w.se
     ((w.processReceivedPacket).1.view.live = false ∧ DeadOK (w.processReceivedPacket).1.view ∧
       ∃ e, (w.processReceivedPacket).2 = .error e) := by
   obtain ⟨part, hl, ho, hq⟩ := h
-  have hquiet := hq hav
+  obtain ⟨hquiet, hidle⟩ := hq hav
   have hpart := ho.of_quiet hquiet
   subst hpart
   have hsp1 := closed_SP.takePkt _ hl.sp
@@ -1504,8 +1546,12 @@ theorem processReceivedPacket_spec (w : World) (h : DrivePre w.view) (hav : w.se
     have hav2 : (w.sess.takePkt.1.handle pkt).1.reader.packetAvailable = false := by
       rw [handle_reader]; exact takePkt_not_avail _
     have hgood : FlushPre ({ ({ w with sess := w.sess.takePkt.1 } : World) with sess := (w.sess.takePkt.1.handle pkt).1 } : World).view :=
-      ⟨[], (hl.sess (SessOK.same hl hsp1 (takePkt_mps _) (by rw [(Session.takePkt_data _).1]))).sess
-        ⟨hsp2, handle_mps _ _, Log_handle _ _ _ _ hsp1.arena (by rw [(Session.takePkt_data _).1]; exact hl.log)⟩,
+      ⟨[], (hl.sess (SessOK.same hl hsp1 (takePkt_mps _) (by rw [(Session.takePkt_data _).1]) (Prim.takePkt _) (takePkt_inlog _) (takePkt_rmark _))).sess
+        ⟨hsp2, handle_mps _ _, Log_handle _ _ _ _ hsp1.arena (by rw [(Session.takePkt_data _).1]; exact hl.log),
+         (Prim.handle _ pkt).everAccepted_changes.1 ((Prim.takePkt _).everAccepted_changes.1 hl.acc),
+         (hl.acks.same (by rw [(Session.takePkt_data _).1]) (takePkt_inlog _)).handle pkt,
+         (hl.relpub.same_out (by rw [(Session.takePkt_data _).1]) (takePkt_rmark _)).handle (k := w.view.ord)
+           (by rw [(Session.takePkt_data _).1]; exact hl.log.p) (by rw [(Session.takePkt_data _).1]; exact hidle) pkt⟩,
         .quiet hq2, hav2⟩
     split
     · exact Or.inl hgood
@@ -1628,7 +1674,7 @@ theorem wire_driveAfterService (fuel : Nat) (ih : MachineW fuel) :
       exact i10 _ _ _ (by simp only [φDAS, φDL] at hfuel ⊢; omega) h
 
 theorem wire_doWaitRead (fuel : Nat) (ih : MachineW fuel) :
-    ∀ w o d y, φDWR w y ≤ fuel + 1 → QuietPre w.view → Post (doWaitRead (fuel + 1) w o d y) := by
+    ∀ w o d y, φDWR w y ≤ fuel + 1 → IdlePre w.view → Post (doWaitRead (fuel + 1) w o d y) := by
   intro w o d y hfuel h
   obtain ⟨_, _, _, _, _, _, _, _, _, _, _, i12, i13⟩ := ih
   have hy := yN_le y
@@ -1641,11 +1687,13 @@ theorem wire_doWaitRead (fuel : Nat) (ih : MachineW fuel) :
     have hna' : w.sess.reader.packetAvailable = false := by simpa using hna
     have ev := mV_not_avail hna'
     split
-    · exact Post.hd_finishErr _ _ h.pfx
+    · exact Post.hd_finishErr _ _ h.1.pfx
     · rename_i s1 window hw
-      have h1 : QuietPre ({ w with sess := s1 } : World).view :=
-        ⟨h.1.sess (SessOK.same h.1 (closed_SP.window _ _ _ h.1.sp hw) (window_mps hw) (by rw [(window_fields hw).1]; rfl)), by
+      have h1 : IdlePre ({ w with sess := s1 } : World).view :=
+        ⟨⟨h.1.1.sess (SessOK.same h.1.1 (closed_SP.window _ _ _ h.1.1.sp hw) (window_mps hw) (by rw [(window_fields hw).1]; rfl) (Prim.window _ _ _ hw) (window_inlog hw) (window_rmark hw)), by
           show s1.data.outbound.Quiet
+          rw [(window_fields hw).1]; exact h.1.2⟩, by
+          show s1.data.outbound.nextStep = none
           rw [(window_fields hw).1]; exact h.2⟩
       obtain ⟨wm0, wm1⟩ := window_metrics hw hna'
       have e1 : mS ({ w with sess := s1 } : World) = mS w := rfl
@@ -1662,25 +1710,25 @@ theorem wire_doWaitRead (fuel : Nat) (ih : MachineW fuel) :
         have hav1 : ({ w with sess := s1 } : World).view.avail = false := window_not_avail hw hw0
         split
         · rename_i w' heq
-          have hv := ioRead_view h1.1.net heq
-          exact Post.hd_finishErr _ _ (by rw [hv]; exact h1.pfx)
+          have hv := ioRead_view h1.1.1.net heq
+          exact Post.hd_finishErr _ _ (by rw [hv]; exact h1.1.pfx)
         · rename_i w' k heq
-          have hv := ioRead_view h1.1.net heq
-          exact Post.hd_finishErr _ _ (by rw [hv]; exact h1.pfx)
+          have hv := ioRead_view h1.1.1.net heq
+          exact Post.hd_finishErr _ _ (by rw [hv]; exact h1.1.pfx)
         · rename_i w' bytes heq
-          have hv := ioRead_view h1.1.net heq
+          have hv := ioRead_view h1.1.1.net heq
           obtain ⟨p1, _, _, _, p5⟩ := ioRead_pot heq
           have hs1 := p5 bytes rfl
           apply i13
           · have hb := φDWR_le ({ w' with sess := w'.sess.commit bytes } : World) y
             have e6 : mS ({ w' with sess := w'.sess.commit bytes } : World) = mS w' := rfl
             simp only [φDWR, mD] at hfuel; omega
-          · show QuietPre { w'.view with sess := w'.view.sess.commit bytes }
-            rw [hv]; exact ⟨h1.1.sess (SessOK.same h1.1 (closed_SP.commit _ _ h1.1.sp) rfl rfl), h1.2⟩
+          · show IdlePre { w'.view with sess := w'.view.sess.commit bytes }
+            rw [hv]; exact ⟨⟨h1.1.1.sess (SessOK.same h1.1.1 (closed_SP.commit _ _ h1.1.1.sp) rfl rfl (Prim.commit _ _) rfl rfl), h1.1.2⟩, h1.2⟩
         · rename_i w' heq
-          have hv := ioRead_view h1.1.net heq
+          have hv := ioRead_view h1.1.1.net heq
           obtain ⟨p1, p2, p3, p4, _⟩ := ioRead_pot heq
-          have hq' : QuietPre w'.view := by rw [hv]; exact h1
+          have hq' : IdlePre w'.view := by rw [hv]; exact h1
           have ha' : w'.view.avail = false := by rw [hv]; exact hav1
           split
           · exact Post.suspend ⟨hq', ha'⟩
@@ -1753,10 +1801,10 @@ theorem wire_afterFlush (fuel : Nat) (ih : MachineW fuel) :
   -- the session after allocating an identifier and encoding the packet behind the retained ones
   have okAE : ∀ {ε : Type} (enc : Nat → (Nat → Nat → Bytes) → Except ε (Nat × Bytes)), EncOk enc →
       SessOK w.view (w.sess.alloc.1.encode enc).1 := fun enc he =>
-    ⟨closed_SP.encodeAfterAlloc w.sess enc he hsp, hm2 enc, Log_encode _ enc harA he hlogA⟩
+    ⟨closed_SP.encodeAfterAlloc w.sess enc he hsp, hm2 enc, Log_encode _ enc harA he hlogA, (Prim.encodeAfterAlloc w.sess enc he).everAccepted_changes.1 h.1.acc, (AckEq.alloc h.1.acks).encode enc, (RelPub.alloc h.1.relpub).encode enc⟩
   have okE : ∀ {ε : Type} (enc : Nat → (Nat → Nat → Bytes) → Except ε (Nat × Bytes)), EncOk enc →
       SessOK w.view (w.sess.encode enc).1 := fun enc he =>
-    ⟨closed_SP.encodeScratch w.sess enc he hsp, hm2e enc, Log_encode _ enc hsp.arena he hlog⟩
+    ⟨closed_SP.encodeScratch w.sess enc he hsp, hm2e enc, Log_encode _ enc hsp.arena he hlog, (Prim.encodeScratch w.sess enc he).everAccepted_changes.1 h.1.acc, AckEq.encode h.1.acks enc, RelPub.encode h.1.relpub enc⟩
   unfold afterFlush
   cases k with
   | post name op => exact Post.live_finishOp _ _ hf
@@ -1795,7 +1843,7 @@ theorem wire_afterFlush (fuel : Nat) (ih : MachineW fuel) :
             refine i1' _ _ (by show 1000 * mS w + 40 * 0 + 5 ≤ fuel; simp only [φAF, kpN] at hfuel; omega) ?_
             rename_i _ off len hres _ _
             have hsp3 := closed_SP.enqueue w.sess _ _ _ false s3 _ hE (EncTyp_encodeWithOffset _ _ _ (by decide)) (by decide) hsp (by simp) hres hs3
-            exact h.sessF ha ⟨hsp3, (retain_mps hs3).trans (hm2 _), Log_retain _ _ _ harA hE hlogA _ _ _ _ hres hs3⟩ (Quiet_retain hq2 hs3) ((retain_reader hs3).trans hr2)
+            exact h.sessF ha ⟨hsp3, (retain_mps hs3).trans (hm2 _), Log_retain _ _ _ harA hE hlogA _ _ _ _ hres hs3, by rw [retain_acc hs3, alloc_encode_acc]; exact h.1.acc, ((AckEq.alloc h.1.acks).encode _).retain hs3, ((RelPub.alloc h.1.relpub).encode _).retain hs3⟩ (Quiet_retain hq2 hs3) ((retain_reader hs3).trans hr2)
   | unsubPre r =>
     simp only []
     split
@@ -1819,7 +1867,7 @@ theorem wire_afterFlush (fuel : Nat) (ih : MachineW fuel) :
             refine i1' _ _ (by show 1000 * mS w + 40 * 0 + 5 ≤ fuel; simp only [φAF, kpN] at hfuel; omega) ?_
             rename_i _ off len hres _ _
             have hsp3 := closed_SP.enqueue w.sess _ _ _ false s3 _ hE (EncTyp_encodeWithOffset _ _ _ (by decide)) (by decide) hsp (by simp) hres hs3
-            exact h.sessF ha ⟨hsp3, (retain_mps hs3).trans (hm2 _), Log_retain _ _ _ harA hE hlogA _ _ _ _ hres hs3⟩ (Quiet_retain hq2 hs3) ((retain_reader hs3).trans hr2)
+            exact h.sessF ha ⟨hsp3, (retain_mps hs3).trans (hm2 _), Log_retain _ _ _ harA hE hlogA _ _ _ _ hres hs3, by rw [retain_acc hs3, alloc_encode_acc]; exact h.1.acc, ((AckEq.alloc h.1.acks).encode _).retain hs3, ((RelPub.alloc h.1.relpub).encode _).retain hs3⟩ (Quiet_retain hq2 hs3) ((retain_reader hs3).trans hr2)
   | publishPre r =>
     simp only []
     split
@@ -1829,7 +1877,7 @@ theorem wire_afterFlush (fuel : Nat) (ih : MachineW fuel) :
       · -- QoS > 0
         have hsp1 := closed_SP.alloc w.sess hsp
         have hq1 : w.sess.alloc.1.data.outbound.Quiet := by rw [alloc_outbound]; exact hquiet
-        have hf1 := h.sessF ha (SessOK.same h.1 hsp1 (by rw [alloc_rt]; rfl) (alloc_outbound _)) hq1 (alloc_reader _)
+        have hf1 := h.sessF ha (SessOK.same h.1 hsp1 (by rw [alloc_rt]; rfl) (alloc_outbound _) (Prim.alloc _) (alloc_ctl _).2 (alloc_rmark _)) hq1 (alloc_reader _)
         split
         · exact Post.live_finishErr _ _ hf1
         · split
@@ -1861,7 +1909,7 @@ theorem wire_afterFlush (fuel : Nat) (ih : MachineW fuel) :
                     have hrt : w.sess.alloc.1.rt = w.sess.rt := rfl
                     rw [hrt] at hcp
                     exact hcp.1) hres hs3
-                  exact h.sessF ha ⟨hsp3, (retain_mps hs3).trans (hm2 _), Log_retain _ _ _ harA hE hlogA _ _ _ _ hres hs3⟩ (Quiet_retain hq2 hs3) ((retain_reader hs3).trans hr2)
+                  exact h.sessF ha ⟨hsp3, (retain_mps hs3).trans (hm2 _), Log_retain _ _ _ harA hE hlogA _ _ _ _ hres hs3, by rw [retain_acc hs3, alloc_encode_acc]; exact h.1.acc, ((AckEq.alloc h.1.acks).encode _).retain hs3, ((RelPub.alloc h.1.relpub).encode _).retain hs3⟩ (Quiet_retain hq2 hs3) ((retain_reader hs3).trans hr2)
       · -- QoS 0
         split
         · exact Post.live_finishErr _ _ hf
